@@ -58,11 +58,17 @@ Definition op_slot (o : op) : option (oid * fname) :=
   | SetRef x f _ | SetCont x f _ _ | Touch x f | Splice x f _ _ _ => Some (x, f)
   | Probe x => Some (x, 0)
   | AddTrait x _ => Some (x, TA)
+  | DelCont x f => Some (x, f)
   end.
 
 Definition classify (t : traits) (hb ha : heap) (o : op) : chg :=
   match o with
   | AddTrait x f => if t x f then NoChange else Exact
+  | DelCont x f =>            (* the new value is an empty container: a change iff the old one was not empty *)
+      match hb x f with
+      | [] => NoChange
+      | y :: _ => match hb y (items_field f) with [] => NoChange | _ => Exact end
+      end
   | Observe _ _ _ | Unobserve _ _ _ | ObserveAll _ _ _ | UnobserveAll _ _ _ | Touch _ _ => NoChange
   | SetRef x f _ => if list_eqb (hb x f) (ha x f) then NoChange else Exact
   | SetCont x f _ de =>
